@@ -10,8 +10,9 @@ ASSUMPTIONS = [
     "producers obey valid-hold: once valid is raised the word is held unchanged until a cycle in which the arbiter "
     "returns ready to that producer; a burst is a maximal run of cycles with valid held, bursts are separated by >= 1 "
     "cycle of valid low",
-    "valid is a single bit (StreamInterface, USBRawSuperSpeedStream and HeaderQueue — every stream type the repository "
-    "arbitrates); multi-lane valid masks are not generated",
+    "sub 'arbiter': valid is a single bit (StreamInterface, USBRawSuperSpeedStream and HeaderQueue — every stream type "
+    "the repository arbitrates); sub 'arbiter-multilane-valid': StreamArbiter(stream_type=SuperSpeedStreamInterface), "
+    "an input offers data while its 4-lane valid mask is non-zero (no in-repo arbiter is built this way)",
     "the consumer's ready is arbitrary (also high while nothing is offered) with bounded gaps",
     "nothing is assumed about which input is selected after reset or while no input is valid",
 ]
